@@ -35,9 +35,9 @@ ASSUMPTIONS = [
     "every cycle transmits 4 symbols; 'transmitted symbols' counts all of them",
     "the receiver model is the repo's Descrambler (C31 proves it against the LFSR definition); SKP = K28.1 literal",
 ]
-BOUNDS = "scaled limit 26: BMC K=40/60 (quick/thorough), link words / can_send_skp free every cycle for the scheduling and " \
-         "substitution assertions; the receiver round trip (two LFSRs in step) with everything free to K=16/20 and with " \
-         "restricted idle schedules to K=40/60; real limit 354: BMC K=186 with can_send_skp pinned to 0 before cycle 170 and " \
+BOUNDS = "scaled limit 26: BMC K=32/60 (quick/thorough), link words / can_send_skp free every cycle for the scheduling and " \
+         "substitution assertions; the receiver round trip (two LFSRs in step) with everything free to K=18/22 and with " \
+         "restricted idle schedules to K=28/60; real limit 354: BMC K=186 with can_send_skp pinned to 0 before cycle 170 and " \
          "free afterwards (first insertion reached), data free"
 OUTSIDE = "cycle 0 after reset (tx_ctc's registered sink.ready is still 0; in the device the PHY is in electrical idle then); " \
           "tx_electrical_idle=1; the link layer's arbiter producing can_send_skp (C39/C41 side); more than one insertion " \
@@ -56,7 +56,7 @@ class _ScaledLayer(Elaboratable):
     def elaborate(self, platform):
         import luna.gateware.usb.usb3.physical.layer as L
         orig = L.CTCSkipInserter
-        if self.limit != orig.SKIP_BYTE_LIMIT:
+        if self.limit is not None:
             L.CTCSkipInserter = type("CTCSkipInserterScaled", (orig,), {"SKIP_BYTE_LIMIT": self.limit})
         try:
             return self.layer.elaborate(platform)
@@ -75,12 +75,12 @@ class TxCtcHarness(Harness):
         from luna.gateware.usb.usb3.physical.scrambling import Descrambler
         from luna.gateware.interface.pipe import PIPEInterface
         self.real_limit = CTCSkipInserter.SKIP_BYTE_LIMIT
-        self.limit = limit or self.real_limit
+        self.limit = limit or 354          # ghost schedule constant: the spec's literal 354 unless explicitly scaled
         self.phy = PIPEInterface(width=4)
         self.layer = USB3PhysicalLayer(phy=self.phy, sync_frequency=50e6)
-        self.dut = _ScaledLayer(self.layer, self.limit)
+        self.dut = _ScaledLayer(self.layer, limit)
         self.rx = Descrambler()            # receiver model (shared definition)
-        if self.limit != self.real_limit:
+        if limit is not None:
             self.stubs.append(f"CTCSkipInserter substituted by a subclass overriding only SKIP_BYTE_LIMIT={self.limit}")
         self.restrictions.append("tx_electrical_idle=0; PHY status inputs tied to 0; LFPS / reset / detection controls tied to 0")
         self.in_data = self.inp("in_data", 32)
@@ -225,19 +225,19 @@ def queries(tier):
     others = ["skp_only_in_place_of_idle", "skp_sent_when_due", "skp_not_ahead_of_schedule", "link_never_stalled",
               "skip_limit_is_354"]
     qs = [
-        Query("bmc_scaled", fs, 40 if quick else 60, asserts=others, timeout=600,
+        Query("bmc_scaled", fs, 32 if quick else 60, asserts=others, timeout=600,
               desc="real USB3PhysicalLayer, SKIP_BYTE_LIMIT scaled to 26 (remainder 2 mod 4 like 354): link words and "
                    "can_send_skp free every cycle; scheduling / substitution / stall assertions"),
-        Query("bmc_intact_free", fs, 16 if quick else 20, asserts=[INTACT], covers=[], timeout=600,
+        Query("bmc_intact_free", fs, 18 if quick else 22, asserts=[INTACT], covers=[], timeout=600,
               desc="scaled: receiver-model round trip with everything free (first insertion and the words after it)"),
-        Query("bmc_intact_sched3", fs, 40 if quick else 60, asserts=[INTACT], covers=[], timeout=600,
+        Query("bmc_intact_sched3", fs, 28 if quick else 60, asserts=[INTACT], covers=[], timeout=600,
               layer={"can_send_skp": (lambda t: int(t % 3 == 0))},
               desc="scaled; layer: idle offered every third cycle (concrete schedule), link words free: round trip over "
                    "several insertions"),
-        Query("bmc_real354", fr, 186, asserts=others, timeout=600, layer={"can_send_skp": (lambda t: 0 if t < 170 else None)},
+        Query("bmc_real354", fr, 186, asserts=others, timeout=600, layer={"can_send_skp": (lambda t: 0 if t < (176 if quick else 170) else None)},
               covers=["skp_inserted", "skp_deferred_until_idle"],
               hints={"*": {"can_send_skp": (lambda t: int(t >= 181)), "in_ctrl": 0, "in_data": 0x12345678}},
-              desc="real constant 354; layer: can_send_skp pinned to 0 before cycle 170, free afterwards (first insertion "
+              desc="real constant 354; layer: can_send_skp pinned to 0 before cycle 176 (quick) / 170 (thorough), free afterwards (first insertion "
                    "when 2*354 symbols were sent = cycle 178); link words free"),
         Query("bmc_real354_intact", fr, 186, asserts=[INTACT], covers=[], timeout=600,
               layer={"can_send_skp": (lambda t: int(t >= 179)), "in_ctrl": 0},
